@@ -345,6 +345,19 @@ func KnownClass(property, class string) bool {
 	return false
 }
 
+// KnownClassAny reports whether a finding class is listed as known for any property.
+func KnownClassAny(class string) bool {
+	if os.Getenv("VERIF_IGNORE_KNOWN") != "" {
+		return false
+	}
+	for _, k := range Known() {
+		if k.Status == "known" && k.Class == class {
+			return true
+		}
+	}
+	return false
+}
+
 // EnvInt reads an integer knob.
 func EnvInt(name string, def int) int {
 	if s := os.Getenv(name); s != "" {
